@@ -224,7 +224,7 @@ dt_get_wday(struct dt_d_s that)
 	case DT_YD:
 		return __yd_get_wday(that.yd);
 	case DT_UMMULQURA:
-		;
+		return __daisy_get_wday(dt_conv_to_daisy(that));
 	default:
 	case DT_DUNK:
 		return DT_MIRACLEDAY;
